@@ -8,6 +8,7 @@ CONSTANTS Kind = "stream"
           Slot = 0
           SidOff = 0
           AsImplemented = FALSE
+          Frag = 0
           LibSource = TRUE
 INVARIANT NoClauseFails
 INVARIANT DeliveredIsPrefixOfHanded
